@@ -198,3 +198,4 @@ func zzFinish(wait time.Duration) []string {
 	defer zz.mu.Unlock()
 	return zz.failed
 }
+func vSetClockStep(int) {}
